@@ -202,9 +202,32 @@ def coqchk(pid_modules):
 COQ_HDR = "From Coq Require Import List ZArith NArith Bool String.\nImport ListNotations.\n"
 
 
+_BUILT = set()
+_BUILD_LOCK = __import__("threading").Lock()
+
+
+def ensure_built(imports):
+    """the modules an evaluation imports must be compiled (they need not lie in the cone of the property's own
+    theorems, e.g. the controller half of a Block property): make their .vo targets, once per process"""
+    with _BUILD_LOCK:
+        todo = [i for i in imports if i not in _BUILT]
+        if not todo:
+            return
+        targets = ["theories/%s.vo" % i.replace(".", "/") for i in todo if os.path.exists(os.path.join(COQ, "theories", i.replace(".", "/") + ".v"))]
+        if targets:
+            mk = os.path.join(COQ, "Makefile")
+            if not os.path.exists(mk):
+                sh("coq_makefile -f _CoqProject -o Makefile", cwd=COQ, check=True)
+            rc, out = sh(["make", "-j16"] + targets, cwd=COQ, timeout=3000)
+            if rc != 0:
+                raise RuntimeError("cannot build %s:\n%s" % (targets, out[-2500:]))
+        _BUILT.update(todo)
+
+
 def coq_eval(ctx, name, imports, defs, queries, timeout=1800):
     """Write a .v file with `defs`, then `Definition qN := Eval vm_compute in <query>. Print qN.` per
     query; returns list of normalised printed values (strings) or raises."""
+    ensure_built(imports)
     path = os.path.join(ctx.work, name + ".v")
     with open(path, "w") as f:
         f.write(COQ_HDR)
